@@ -312,9 +312,12 @@ def run_check(modname, tier, seed, replay=None, workers=None):
         print('HARNESS-ERROR determinism self-test crashed: %r' % (e,))
         traceback.print_exc()
         return 2
-    if not det['ok']:
-        print('HARNESS-ERROR determinism self-test failed: %r' % (det,))
-        return 2
+    nondet = not det['ok']
+    if nondet:
+        # the harness proved itself deterministic on the unchanged tree (tools/determinism.py); if the SAME harness now
+        # diverges, the tree under test has become order dependent (e.g. iterates a set of objects ordered by id()).
+        # Violations found in the runs that were executed are still real; but such a tree can never be reported as holding.
+        print('NONDETERMINISM-WARNING the tree under test does not replay identically: %r' % (det,))
 
     # 2. the batch
     units = mod.units(tier, seed)
@@ -395,7 +398,7 @@ def run_check(modname, tier, seed, replay=None, workers=None):
                 small, used = desc, 0
             r1 = mod.execute_desc(small)
             r2 = mod.execute_desc(small)
-            if r1['digest'] != r2['digest']:
+            if r1['digest'] != r2['digest'] and not nondet:
                 print('HARNESS-ERROR replay digests differ for %s' % (v['clause'],))
                 return 2
             vv = None
@@ -413,6 +416,10 @@ def run_check(modname, tier, seed, replay=None, workers=None):
                 small = desc
                 r1 = mod.execute_desc(small)
                 vv = next((x for x in r1['violations'] if x['clause'] == v['clause']), None)
+            if vv is None and nondet:
+                vv = v
+                r1 = dict(r1)
+                r1['digest'] = None
             if vv is None:
                 print('HARNESS-ERROR violation %s did not reproduce from its description' % (v['clause'],))
                 return 2
@@ -461,7 +468,12 @@ def run_check(modname, tier, seed, replay=None, workers=None):
     print('%s tier=%s seed=%d runs=%d distinct=%d units=%d/%d sim_s=%.0f wall=%.1fs violations(new)=%d known=%d' % (
         prop, tier, seed, total['evals'], len(total['sigs']), total['units'], total['units_planned'],
         total['sim_seconds'], wall, len(new), len(known_hit)))
-    return 1 if new else 0
+    if new:
+        return 1
+    if nondet:
+        print('HARNESS-ERROR the tree under test is not deterministic under the simulator and no violation was found: no verdict')
+        return 2
+    return 0
 
 
 def _merge(total, res):
